@@ -259,26 +259,26 @@ def check_pi(A4, lam, seed, hermitian=True, budget=3000, tol=1e-13):
     np.random.seed(seed)
     v, est = u.power_iteration(rt.q_from4(A4), max_iterations=budget, return_eigenvalue=True, **kw)
     v4 = rt.q_to4(v).reshape(n, 1, 4)
-    if abs(rt.fro(v4) - 1.0) > 1e-10:
+    if not (abs(rt.fro(v4) - 1.0) <= 1e-10):
         return {"what": "returned vector is not of unit norm", "norm": rt.fro(v4)}
     np.random.seed(seed)
     v_only = u.power_iteration(rt.q_from4(A4), max_iterations=budget, **kw)
     if not np.array_equal(rt.q_to4(v_only).reshape(n, 1, 4), v4):
         return {"what": "vector differs between return_eigenvalue=True and False under the same seed"}
     ray = rt.fro(rt.qmm(rt.qH(v4), rt.qmm(A4, v4))) / rt.fro(rt.qmm(rt.qH(v4), v4))
-    if abs(est - ray) > 1e-10 * max(1.0, ray):
+    if not (abs(est - ray) <= 1e-10 * max(1.0, ray)):
         return {"what": "returned eigenvalue is not the modulus of the Rayleigh quotient of the returned vector", "returned": est, "rayleigh": ray}
     s2 = float(rt.singular_values(A4)[0]) if n else 0.0
-    if est > s2 * (1 + 1e-9) + 1e-12:
+    if not (est <= s2 * (1 + 1e-9) + 1e-12):
         return {"what": "eigenvalue estimate exceeds the spectral norm", "estimate": est, "norm2": s2}
     if lam is not None:
         l1 = lam[0]
         sc = max(1.0, abs(l1))
-        if abs(est - abs(l1)) > 1e-6 * sc:
+        if not (abs(est - abs(l1)) <= 1e-6 * sc):
             return {"what": "estimate differs from |lambda_max|", "estimate": est, "lambda_max": l1}
         Av = rt.qmm(A4, v4)
         r_pos, r_neg = rt.fro(Av - l1 * v4), rt.fro(Av + l1 * v4)
-        if r_pos > 1e-5 * sc:
+        if not (r_pos <= 1e-5 * sc):
             return {"what": "returned vector is not an eigenvector for the signed dominant eigenvalue", "residual": r_pos, "residual_with_flipped_sign": r_neg, "lambda_max": l1}
     return None
 
@@ -290,7 +290,7 @@ def check_nh(A4, seed, hermitian, **opts):
     np.random.seed(seed)
     q, lam, res = u.power_iteration_nonhermitian(rt.q_from4(A4), max_iterations=opts.pop("budget", 2000), seed=seed, **opts)
     q4 = rt.q_to4(q).reshape(n, 1, 4)
-    if abs(rt.fro(q4) - 1.0) > 1e-9:
+    if not (abs(rt.fro(q4) - 1.0) <= 1e-9):
         return {"what": "complex-adjoint variant: vector not of unit norm", "norm": rt.fro(q4)}
     lc = complex(lam) if not hasattr(lam, "w") else complex(lam.w, lam.x)
     if hermitian and (abs(lc.imag) != 0.0 or (hasattr(lam, "w") and (lam.y != 0.0 or lam.z != 0.0))):
